@@ -56,7 +56,7 @@ add("C05",
     "DESIGN.md §5 C05", bounded="lineline,index")
 
 add("C07",
-    "Proved clauses only (all relative to the assumed gjson accessors and the trusted coordinate decoders): Parse returns (object,nil) or (nil,error) for every text and every ParseOptions, rejects the empty text, and terminates (measure over the text length); an accepted LineString has at least two positions; an accepted Polygon has an exterior ring, every ring has at least four positions and first == last (the rings of the object are position-for-position the decoded ones: model clauses of NewLine/NewPoly/newRing); a Polygon parses to *Polygon or (AllowRects) *Rect; every member of an accepted MultiLineString / MultiPolygon obeys the same line / ring rules; a decoded position keeps at most two extra ordinates and has exactly dims values; the nine type parsers return the kind they are named after. NOT proved: that the decoded numbers equal those of a standard JSON decoder, duplicate-member semantics, the type-member rules, trailing-text rejection (gjson.Valid is an uninterpreted dependency), and the 'is accepted' direction.",
+    "Proved clauses only (all relative to the assumed gjson accessors and the trusted coordinate decoders): Parse returns (object,nil) or (nil,error) for every text and every ParseOptions, rejects the empty text, and terminates (measure over the text length); an accepted LineString has at least two positions; an accepted Polygon has an exterior ring, every ring has at least four positions and first == last (the rings of the object are position-for-position the decoded ones: model clauses of NewLine/NewPoly/newRing); a Polygon parses to *Polygon or (AllowRects) *Rect; every member of an accepted MultiLineString / MultiPolygon obeys the same line / ring rules; a decoded position comes from a JSON array (the obligation that exposed finding F14, fixed by f45f017), keeps at most two extra ordinates and has exactly dims values; the required member of MultiPoint/MultiLineString/MultiPolygon/GeometryCollection/FeatureCollection exists and is an array, a Feature has a geometry member (gjson's Exists/IsArray as uninterpreted but named accessors); the nine type parsers return the kind they are named after. NOT proved: that the decoded numbers equal those of a standard JSON decoder, duplicate-member semantics, the type-member rules, trailing-text rejection (gjson.Valid is an uninterpreted dependency), and the 'is accepted' direction.",
     "PARTIAL: this is the subset of the property that is expressible as postconditions of the Go parsers; the text-level half (what gjson returns for a given text) is assumed (A-GJSON), so the check decides the structural rejection rules implemented in Go, not the JSON reading itself.",
     "DESIGN.md §5 C07")
 
